@@ -765,4 +765,5 @@ def shrink_candidates(rp):
 def extra_coverage(results: List[Dict[str, Any]]) -> Dict[str, Any]:
     sim_time = sum(r.get("stats", {}).get("sim_time_s", 0) for r in results)
     kinds = {k: sum(r.get("stats", {}).get("solver:" + k, 0) for r in results) for k in FAULTS}
-    return {"sim_time_s": sim_time, "fault_counts": {"solver": kinds}}
+    return {"sim_time_s": sim_time, "simulated_time": f"{sim_time} simulated seconds read through the clock seam (plans: steady, jump forward, jump backward, frozen)",
+            "solver_calls_by_mode": kinds}
